@@ -146,6 +146,7 @@ pub fn gen_case(t: &mut Tape) -> Case {
         ..Default::default()
     }));
     prog.mods[obs].impls.push(Impl {
+        more: vec![],
         ty: "Obs".into(),
         funcs: vec![Func {
             more: vec![],
@@ -189,6 +190,10 @@ pub fn gen_case(t: &mut Tape) -> Case {
         addr: Some(Num::d(0x5000)),
         doc: vec![],
     });
+    // the observer's statements in another order, its imports partly with a leading `::`
+    if t.chance(1, 3) {
+        prog.mods[obs].sty = t.below(128) as u8;
+    }
     let ord = if t.chance(1, 2) { 0 } else { 1 + t.below(200) as u8 };
     Case { prog, w, obs, name, ord }
 }
